@@ -63,6 +63,15 @@ def main(ctx):
         ctx.violation('concurrent single operations were not atomic: %r' % c, 'observed:mgr:atomic', replay=c)
     if data['key'] != {'connect': 'refused', 'right_key': 'accepted'}:
         ctx.violation('authentication key not enforced: %r' % data['key'], 'observed:mgr:key', replay=data['key'])
+    if data['hostile'].get('served'):
+        ctx.violation('a client without the key was served: %r' % data['hostile'], 'observed:mgr:hostile',
+                      replay=data['hostile'])
+    st = data['shared_twice']
+    if not (st['same_object'] and st['alive'] and st['objects_after_drop'] == st['objects_before']):
+        ctx.violation('an object handed out twice did not outlive the first of its proxies: %r' % st,
+                      'observed:mgr:shared_twice', replay=st)
+    ctx.note('hostile_client', data['hostile'])
+    ctx.note('shared_twice', st)
     ctx.note('twin_ops', data['twin']['ops'])
     ctx.note('concurrent', c)
     ctx.sample({'lifetime_trace': [o['act'] for o in obs[0]]})
